@@ -487,6 +487,34 @@ def check_register(case: t.Any, ctx: Ctx) -> None:
     Executor(ctx)._register_after_use()
 
 
+def fwd_cases(shard: int, nshards: int) -> t.Iterator[t.Any]:
+    for i in range(4):
+        if i % nshards == shard:
+            yield [i]
+
+
+def check_forward_ref(case: t.Any, ctx: Ctx) -> None:
+    """A named tuple whose slot type is a forward reference that cannot be resolved *yet*: converting to it early must not leave a
+    converter behind that differs from the one built once the name exists (a type whose slots cannot be resolved is refused, not
+    converted with every slot taken for Any - and the refusal is not memoised)."""
+    import pane
+    (i,) = case
+    name = f"LateLeaf{i}_{id(ctx) % 100000}"
+    Node = t.NamedTuple('Node', [('val', int), ('child', name)])      # type: ignore
+    ctx.nontrivial(True)
+    ctx.evaluated()
+    early = outcome(lambda: pane.from_data(['not an int', ['bad']], Node))
+    globals()[name] = t.NamedTuple(name, [('x', int)])      # the name exists from now on
+    try:
+        late_bad = outcome(lambda: pane.from_data(['not an int', ['bad']], Node))
+        late_good = outcome(lambda: pane.from_data([1, [2]], Node))
+    finally:
+        globals().pop(name, None)
+    if early[0] == 'ok' or late_bad[0] != 'ce' or late_good[0] != 'ok' or late_good[1].child.x != 2:
+        ctx.fail('history-independent', 'forward-reference-resolved-later', f"class Node(NamedTuple): val: int; child: '{name}'; converted before {name} exists: "
+                 f"{early[0]} {short(early[1], 80)}; after it exists, bad data: {late_bad[0]} {short(late_bad[1], 80)}, good data: {late_good[0]} {short(late_good[1], 80)}")
+
+
 def check_history(case: t.Any, ctx: Ctx) -> None:
     ex = Executor(ctx)
     for op in case:
@@ -654,6 +682,7 @@ def suites(tier: str) -> t.List[Suite]:
     return [
         Suite('history', check_history, stateful=lambda: make_machine(steps, big), examples=400 if big else 40, step_count=steps,
               budget_s=480 if big else 45, render=render),
+        Suite('forward-reference', check_forward_ref, cases=fwd_cases, exhaustive=True, budget_s=20, render=lambda c: {'n': c[0]}),
         Suite('register-after-use', check_register, cases=register_cases, exhaustive=True, budget_s=30, render=lambda c: {'registration': c[0]}),
         Suite('keycache', check_keycache, strategy=keycache_cases, examples=3000 if big else 300, budget_s=60),
     ]
